@@ -155,3 +155,136 @@ Proof.
   intros F A. destruct (axis_pos_inv _ _ _ A) as [_ [H1 [H2 H3]]].
   rewrite (f_ps_len _ _ _ _ _ _ _ F), (f_es_len _ _ _ _ _ _ _ F). repeat split; assumption.
 Qed.
+
+(* ---- GeneralizedDotProductSoftAttention.score: (query.unsqueeze(dim) * linear(key, W, b)).sum(-1) ------- *)
+Lemma nth_concat_rows {A} (d : A) n : forall (W : list (list A)) t j,
+  Forall (fun w => length w = n) W -> t < length W -> j < n ->
+  nth (t * n + j) (concat W) d = nth j (nth t W []) d.
+Proof.
+  induction W as [|w W IH]; intros t j Hall Ht Hj; [cbn in Ht; lia|].
+  inversion Hall as [|? ? Hw Hall']; subst. cbn [concat].
+  destruct t as [|t].
+  - cbn [Nat.mul Nat.add nth]. apply app_nth1. lia.
+  - rewrite app_nth2 by lia. replace (S t * length w + j - length w) with (t * length w + j) by lia.
+    cbn [nth]. apply IH; [exact Hall'|cbn in Ht; lia|exact Hj].
+Qed.
+
+Lemma map_nth_seq {A} (d : A) (l : list A) : map (fun j => nth j l d) (seq 0 (length l)) = l.
+Proof.
+  induction l as [|x l IH]; [reflexivity|]. cbn [length seq map nth]. f_equal.
+  rewrite <- seq_shift, map_map. exact IH.
+Qed.
+
+Lemma map_as_seq {A B} (d : A) (f : A -> B) (l : list A) : map f l = map (fun c => f (nth c l d)) (seq 0 (length l)).
+Proof. rewrite <- (map_nth_seq d l) at 1. rewrite map_map. reflexivity. Qed.
+
+Lemma vadd_as_seq (y bl : list Q) n : length y = n -> length bl = n ->
+  vadd y bl = map (fun c => (nth c y 0 + nth c bl 0)%Q) (seq 0 n).
+Proof.
+  revert bl n. induction y as [|a y IH]; intros bl n Hy Hb.
+  - cbn in Hy. subst n. reflexivity.
+  - destruct bl as [|b bl]; [cbn in Hy, Hb; lia|]. destruct n as [|n]; [discriminate|].
+    cbn in Hy, Hb. unfold vadd in *. cbn [combine map seq nth]. f_equal.
+    rewrite <- seq_shift, map_map. apply (IH bl n); lia.
+Qed.
+
+(* the weight (rows W, each of length ks) and the bias as the flat parameters the module holds *)
+Definition rows_tn (cols : nat) (W : list (list Q)) : tn Q := mkTn [length W; cols] (concat W).
+Definition vec_tn (b : list Q) : tn Q := mkTn [length b] b.
+
+Lemma clamp_head_lt n s c i : c < n -> clamp (n :: s) (c :: i) = c :: clamp s i.
+Proof.
+  intros H. cbn [clamp]. destruct (Nat.eqb_spec n 1); [|reflexivity]. f_equal. lia.
+Qed.
+
+Section General.
+  Variables q k v : tensor Q.
+  Variable m : option (tensor bool).
+  Variable p : nat.
+  Variables es ps : shape.
+  Hypothesis F : attend_facts q k v m p es ps.
+
+  Lemma general_score_ops tanhf W b qs ks :
+    hd 0 (tshape q) = qs -> hd 0 (tshape k) = ks -> fl_sizes (General W b) qs ks = true ->
+    exists WK P,
+      OpsC20.linear (mat k) (rows_tn ks W) (option_map vec_tn b) = Some WK /\
+      mul (runsq p (mat q)) WK = Some P /\
+      sum_dim P (-1) = Some (mat (mkT es (e_at (score tanhf (General W b)) q k p))).
+  Proof.
+    intros Hq Hk Hfl.
+    pose proof (f_p _ _ _ _ _ _ _ F) as Hp.
+    destruct (shapes_qk q k v m p es ps F) as [sq' [sk' [Eq [Ek [Hpe Htl]]]]]. rewrite Hq in Eq. rewrite Hk in Ek.
+    pose proof (af_es _ _ _ _ _ _ _ F) as Hes. rewrite Htl, Ek in Hes. cbn [tl] in Hes.
+    cbn [fl_sizes] in Hfl. apply andb_true_iff in Hfl. destruct Hfl as [Hfl Hbl].
+    apply andb_true_iff in Hfl. destruct Hfl as [HlW Hrows]. apply Nat.eqb_eq in HlW.
+    assert (Hall : Forall (fun w => length w = ks) W).
+    { apply Forall_forall. intros w Hw. rewrite forallb_forall in Hrows. apply Nat.eqb_eq, Hrows, Hw. }
+    (* linear *)
+    pose (TW := mkT (qs :: sk')
+                    (fun ci => match ci with
+                               | c :: i =>
+                                   let y := dotq (map (fun j => tat (rd 0%Q (mat k)) (j :: i)) (seq 0 ks))
+                                                 (map (fun j => tat (rd 0%Q (rows_tn ks W)) [j; c]) (seq 0 ks)) in
+                                   match option_map vec_tn b with None => y | Some bt => (y + tat (rd 0%Q bt) [c])%Q end
+                               | [] => 0%Q
+                               end)).
+    assert (Hlin : OpsC20.linear (mat k) (rows_tn ks W) (option_map vec_tn b) = Some (mat TW)).
+    { unfold OpsC20.linear. cbn [rows_tn shp]. rewrite rshp_mat, Ek, Nat.eqb_refl, HlW.
+      destruct b as [bl|]; cbn [option_map vec_tn shp nats_eqb andb].
+      - apply Nat.eqb_eq in Hbl. rewrite Hbl, Nat.eqb_refl. reflexivity.
+      - reflexivity. }
+    exists (mat TW).
+    assert (Hb : bshape (rev (shp (runsq p (mat q)))) (rev (shp (mat TW))) = Some (qs :: es)).
+    { rewrite rshp_runsq, !rshp_mat, Eq. unfold TW. cbn [tshape]. rewrite Hp, ins_S. apply bshape_same_head, Hes. }
+    pose (P := mat (mkT (qs :: es) (fun i => (bget (rd 0%Q (runsq p (mat q))) i * bget (rd 0%Q (mat TW)) i)%Q))).
+    assert (Hr : rpos (rank P) (-1) = Some 0) by (apply rpos_last; unfold P; rewrite rank_mat; cbn; lia).
+    assert (HrP : rev (shp P) = qs :: es) by (unfold P; apply rshp_mat).
+    exists P. split; [exact Hlin|]. split; [apply (mul_r _ _ _ Hb)|].
+    rewrite (sum_dim_r _ _ _ Hr), HrP, del_0. cbn [nth]. f_equal.
+    apply mat_ext. intros j Hj.
+    unfold e_at, score, qu, dotq, brow.
+    rewrite unsq_shape, Eq, Ek, Hp, ins_S. cbn [hd]. rewrite <- Hp.
+    set (krow := map (fun c => bget k (c :: j)) (seq 0 ks)).
+    (* linear_row as a table over 0..qs-1 *)
+    assert (Hlr : linear_row W b krow
+                  = map (fun c => match b with
+                                  | None => dotq krow (nth c W [])
+                                  | Some bl => (dotq krow (nth c W []) + nth c bl 0)%Q
+                                  end) (seq 0 qs)).
+    { unfold linear_row. destruct b as [bl|].
+      - apply Nat.eqb_eq in Hbl.
+        rewrite (vadd_as_seq _ bl qs) by (rewrite ?map_length; assumption).
+        apply map_ext_in. intros c Hc. apply in_seq in Hc. f_equal.
+        rewrite (map_as_seq [] (fun w => dotq krow w) W), HlW.
+        rewrite (nth_indep _ 0%Q (dotq krow (nth 0 W []))) by (rewrite map_length, seq_length; lia).
+        rewrite (map_nth (fun c0 => dotq krow (nth c0 W []))), seq_nth by lia. reflexivity.
+      - rewrite (map_as_seq [] (fun w => dotq krow w) W), HlW. reflexivity. }
+    rewrite Hlr, vmul_map. f_equal. apply map_ext_in. intros t Ht. apply in_seq in Ht.
+    assert (Hv : valid (qs :: es) (t :: j)) by (apply valid_cons; [lia|exact Hj]).
+    rewrite ins_0. unfold P. rewrite tat_rd_mat by exact Hv. cbn [tat].
+    destruct (bshape_into _ _ _ Hb) as [Hi1 Hi2]. rewrite rshp_runsq, rshp_mat in Hi1. rewrite rshp_mat in Hi2.
+    rewrite (bget_rd_runsq 0%Q p q (qs :: es)); [|rewrite Eq; cbn [length]; lia|exact Hi1|exact Hv].
+    rewrite (bget_rd_mat 0%Q TW (qs :: es)) by assumption.
+    f_equal.
+    (* the projected key at (t, j) *)
+    unfold bget at 1. change (tshape TW) with (qs :: sk'). rewrite clamp_head_lt by lia. unfold TW. cbn [tat].
+    pose proof (f_into_k _ _ _ _ _ _ _ F) as Hik. rewrite Ek in Hik. cbn [tl] in Hik.
+    assert (Hvc : valid sk' (clamp sk' j)) by (apply (clamp_valid _ es); assumption).
+    assert (Hrow : map (fun j0 => tat (rd 0%Q (mat k)) (j0 :: clamp sk' j)) (seq 0 ks) = krow).
+    { unfold krow. apply map_ext_in. intros c Hc. apply in_seq in Hc.
+      rewrite tat_rd_mat by (rewrite Ek; apply valid_cons; [lia|exact Hvc]).
+      unfold bget. rewrite Ek, clamp_head_lt by lia. reflexivity. }
+    rewrite Hrow.
+    assert (Hw : map (fun j0 => tat (rd 0%Q (rows_tn ks W)) [j0; t]) (seq 0 ks) = nth t W []).
+    { assert (Hlen : length (nth t W []) = ks).
+      { rewrite Forall_forall in Hall. apply Hall, nth_In. lia. }
+      etransitivity; [|apply (map_nth_seq 0%Q)]. rewrite Hlen.
+      apply map_ext_in. intros c Hc. apply in_seq in Hc.
+      unfold rd, rows_tn, of_flat. cbn [shp dat rev app tat rfi].
+      replace ((0 * length W + t) * ks + c) with (t * ks + c) by lia.
+      apply nth_concat_rows; [exact Hall|lia|lia]. }
+    rewrite Hw.
+    destruct b as [bl|]; cbn [option_map]; [|reflexivity].
+    f_equal.
+  Qed.
+End General.
